@@ -4,7 +4,7 @@ import glob, json, os, re, subprocess
 root = os.path.dirname(os.path.dirname(os.path.abspath(__file__)))
 p = os.path.join(root, "DESIGN.md"); s = open(p).read()
 a = s.index("### 12.7 Binding demonstrated: seeded changes")
-b = s.index("### 12.9 Growth of the specification")
+b = s.index("### 12.7a ") if "### 12.7a " in s else s.index("### 12.8 Growth of the specification")
 n = len(glob.glob(os.path.join(root, "seeded", "*/")))
 missed = sum(1 for d in glob.glob(os.path.join(root, "seeded", "*/")) if "at first" in json.load(open(d + "meta.json")).get("confirmed_by_me", {}).get("result", ""))
 tbl = subprocess.check_output(["python3", os.path.join(root, "lib", "seedtable.py")], text=True)
@@ -18,10 +18,23 @@ with / passes without the patch; suite passes) and run through the checks with
 `lib/seedtest.sh` (which restores the evidence file afterwards, so evidence
 always describes the unchanged tree):
 
-%d seeded changes in three rounds (C20 is not applicable). Every one is caught by the quick tier of its property's
-check on the current tree. %d of them were missed or mishandled when first run — each time because the case space
-lacked the feature, never because a verdict was too weak — and the right-hand column records what was added. That
-loop (independent change → miss → grow the specification and its generators → caught) is how most of §12.9 came about.
+%d seeded changes in six rounds (C20 is not applicable). Every one is caught by the quick tier of a registered check
+(its property's own, except where the table names another) on the current tree. %d of them were missed or mishandled
+when first run. Most misses had one cause: the case space lacked the feature the change needs (a builder method, a
+clause, a value shape, a call order). In a few the check compared less than the property states — C09 compared the
+three renderings with one another but judged none on its own (C09-6, C09-7); C13 compared the partial flag of an
+index but not its predicate (C13-8); C14 parsed MySQL table options without comparing them (C14-8); C06 read the
+first WHERE of an upsert whichever clause it belonged to (C06-8); C18 compared value tuples in one representation
+only (C18-5) — and there the verdict was extended to what the property says, with a new key each time. No check was
+ever loosened. The right-hand column records what was added. That loop (independent change → miss → grow the
+specification and its generators → caught) is how most of §12.8 came about.
+
+Three changes produced by the sub-agents were not kept, because the behaviour they change is outside the property
+as stated: C05-8 (a CASE without any WHEN arm — the unchanged tree renders `(CASE ELSE x END)`, which no engine
+parses, so there is no well-formed rendering to preserve), C10-6 (an empty row on a column-less INSERT through
+`values_panic` — the behaviour it changes is the one already listed as an open C10 finding) and C11-6
+(`inject_parameters` on a hand-written text that repeats `$1` — the property quantifies over the (sql, values)
+pairs `build()` produces, which never repeat a number).
 
 ''' % (n, missed)
 s = s[:a] + txt + tbl + "\n" + s[b:]
